@@ -76,7 +76,9 @@ def l2_monitor(spec, rec, obs):
         if obs.leftover:
             late = [type(e).__name__ for e in obs.leftover]
             from_cancel = any(r["kind"] == "publish" and r.get("on_cancel") for r in rec.log)
-            if from_cancel and all(n == "U6" for n in late):
+            # (known for runs ended by cancel_run / timeout / failure, whose cleanup runs after the terminal event was
+            # published; a StopEvent result cancels and awaits the sibling bodies BEFORE it is published)
+            if from_cancel and all(n == "U6" for n in late) and kind != "result":
                 out.append("%s: %s published after the terminal event by a step body that was being cancelled by the exit cleanup"
                            % (K_CANCEL_PUBLISH, late))
             else:
@@ -90,13 +92,13 @@ def l2_monitor(spec, rec, obs):
 def run(ctx):
     ctx.rule = ("L1: random reachable reducer histories, terminal-event/exit-command pairing on every real transition; L2: "
                 "generated workflows ending in every way (result, step failure with/without retries, raising retry policy, "
-                "raising retry predicate, non-event return, racing StopEvents, cancel_run at a random moment, workflow "
-                "timeout, body publishing while cancelled) on the real engine under virtual time; the full stream, the "
+                "raising retry predicate, non-event return, racing StopEvents (also with siblings that publish while "
+                "being cancelled), cancel_run at a random moment, workflow timeout, body publishing while cancelled) on the real engine under virtual time; the full stream, the "
                 "handler outcome and the publish queue after the end are checked; distinct key = history index / run facts")
     ctx.prove()
     run_l1(ctx, ctx.n(100, 4000), l1_monitor, THEOREMS, need=("complete_run", "fail_workflow", "tick_TickCancelRun", "tick_TickTimeout"))
     modes = ["result", "step_fail", "policy_raises", "pred_raises", "other_return", "stop_race", "cancel", "timeout",
-             "finally_publish", "user_policy_object"]
+             "finally_publish", "user_policy_object", "stop_race_publish"]
     fails, facts = run_l2(ctx, [S.exits, S.exits, S.exits, S.failflow, S.fanout], ctx.n(240, 5000), l2_monitor,
                           need=tuple(("mode_" + m, 3) for m in modes) + (("runs_ended", 100),))
     known = [f for f in fails if f["why"].startswith(K_CANCEL_PUBLISH)]
